@@ -167,8 +167,8 @@ CHECKS["C13"] = ("HeaderMap.tla, TraceHeaderMap.tla, Cookie.tla",
     "MutationsClean, RejectAtMutation, LowerKeys) with every edge replayed on a real MutableHeaders and every store emitted on "
     "both interfaces; trace validation by TLC of long recorded operation sequences (TraceHeaderMap.tla, invariants on); class-level "
     "cookie quoting rule (OnePair) in Cookie.tla; the classes are bound to real characters by exhaustive per-character checks",
-    "All operation sequences of length <= 2 (thorough 3) over names/values with CR, LF, NUL, non-ASCII; 150 (thorough 1500) random "
-    "sequences of 60 (200) operations over 9 names x 9 values; constructor paths; all 256 characters in "
+    "All operation sequences of length <= 2 (thorough 3) over names/values with CR, LF, NUL, non-ASCII; 150 (thorough 600) random "
+    "sequences of 60 (100) operations over 9 names x 9 values; constructor paths; all 256 characters in "
     "header names/values through item assignment, append (new and existing key), update, setdefault; cookie name/value over all "
     "256 characters alone and beside 8 delimiters; redirect targets over the BMP sample (thorough: all of Unicode).",
     "Trusted: TLC; the codec part is decided by enumeration on the implementation, the model contributes the class structure. "
@@ -203,7 +203,7 @@ CHECKS["C18"] = ("Url.tla, TraceUrl.tla",
     "of chains of replace() calls (TraceUrl.tla: TReplaced on every observed result, then Replace() itself)",
     "Schemes x named/IPv4/IPv6 hosts x default and other ports x Host header forms x roots x paths (non-ASCII) x queries; every "
     "URL with a host x every set of 1-2 (thorough 3) components to replace x new values incl. removing user/password/port; 300 "
-    "(thorough 3000) chains of 25 (60) replace() calls of 1-3 components, each result the input of the next.",
+    "(thorough 1500) chains of 25 (40) replace() calls of 1-3 components, each result the input of the next.",
     "Trusted: TLC, urllib.parse.urlsplit as the reader of the resulting URL, the token concretisation in the adapter.",
     "DESIGN.md 5 C18")
 
